@@ -103,10 +103,24 @@ end Export
 section Csv
 open Exetera.Csv Exetera.Csv.Spec
 
-/- FULL STATEMENT (not proved here): the same conclusion from `Supported.reg` alone (every line fits the byte window), for
-   every `offs` with budgets ≥ 1 — i.e. including the runs in which a staging buffer fills and is enlarged (regrowth), with a
-   bound that also counts the regrowth calls. What is missing: the driver invariant across a regrowth step (re-run of the same
-   window with enlarged buffers); it is validated by the correspondence (exhaustive small scope + random) only. -/
+/-- **csv_driver_terminates** (full statement; the driver invariant across a regrowth step is `C05.window_chunking_unobservable`).
+    In the supported regime (every line fits the byte window `2·crs·ncols`), for every `chunk_row_size ≥ 1`, EVERY starting value
+    budgets ≥ 1 — whatever regrowth they force, any number of times, in any window — and every fuel ≥ `records + 2 + regrowthBound`:
+    `read_file_using_fast_csv_reader` finishes with the file's columns — never `outOfFuel`. (What stays outside: a record longer
+    than the byte window; the regime hypothesis `Regime.reg` excludes it, see DESIGN 6.6.) -/
+theorem csv_driver_terminates {file : List Nat} {crs ncols : Nat} {offs : List Nat} {hrow : List Cell}
+    {rows : List (List Cell)} (h : C05.Regime file crs ncols hrow rows) (hb : C05.Budgets ncols offs) (im : List Nat)
+    (him : ∀ c ∈ im, c < ncols) (fuel : Nat)
+    (hfuel : rows.length + 2 + regrowthBound rows ncols offs (crs * Gen.Csv.CHUNK_ROW_FACTOR) ≤ fuel) :
+    (∃ calls, readFile file crs ncols offs im (im.map (fun _ => ({ kind := .indexed } : Imp))) fuel =
+      .ok ⟨rows.length, im.map (fun c => fieldOf (column (values rows) c)), calls⟩) ∧
+    readFile file crs ncols offs im (im.map (fun _ => ({ kind := .indexed } : Imp))) fuel ≠ .error .outOfFuel := by
+  obtain ⟨calls, hrun⟩ := C05.window_chunking_unobservable h hb im him fuel hfuel
+  exact ⟨⟨calls, hrun⟩, by rw [hrun]; intro h; cases h⟩
+
+-- non-vacuity of `csv_driver_terminates`: `C05`'s examples `Regime (render (exHeader :: exRows)) 3 2 exHeader exRows` and
+-- `Budgets 2 [0, 1, 2]` (one byte per column: regrowth in every window) are exactly its hypotheses
+
 /-- **csv_driver_terminates_partial.** In the supported regime (every line fits the byte window `2·crs·ncols`) and under the two
     no-regrowth hypotheses of C05 (`min`, `fit`), for every `chunk_row_size ≥ 1` and every fuel `≥ 1·(number of records) + 2`:
     `read_file_using_fast_csv_reader` finishes with the file's columns — never `outOfFuel`. -/
